@@ -41,6 +41,8 @@ SHAPES = {
     "miss": dict(nt=3, nl=3, ns=3, prob=True, ens=True),
     "missfirst": dict(nt=3, nl=3, ns=3, prob=True, ens=True),  # the FIRST lead time (file a) / first location (file b) / first time (file c) is missing
     "x0noobs": dict(nt=3, nl=3, ns=3, prob=True, ens=True, x0=True),      # variable with a discrete mass at 0; file b has NO observations (borrowed from file a)
+    "lon360": dict(nt=3, nl=3, ns=3, prob=True, ens=True, lon360=True),     # longitudes 10, 180, 350: the 0..360 convention, spanning more than 180 degrees
+    "dry": dict(nt=3, nl=3, ns=3, prob=True, ens=True, dry=True),           # one station whose observations are constant
     "mixed": dict(nt=3, nl=3, ns=3, prob=True, ens=True),      # file b has only obs and fcst: probabilistic fields exist in one input only
 }
 BIN_TYPES = ["below", "below=", "above", "above=", "within", "=within", "within=", "=within="]
@@ -50,7 +52,7 @@ VARIANTS = [[], ["-r", "0,2,5"], ["-r", "0,2,5", "-b", "within"], ["-agg", "medi
             ["-d", "20130101"], ["-tod", "3"], ["-d", "20130101", "-r", "2"]]        # selections that leave no time at all
 
 
-def write_file(path, rng, nt, nl, ns, prob, ens, blank=None, x0=False, noobs=False):
+def write_file(path, rng, nt, nl, ns, prob, ens, blank=None, x0=False, noobs=False, lon360=False, dry=False):
     hdr = "unixtime leadtime location lat lon altitude obs fcst"
     if prob:
         hdr += " p0 p1 p5 q0.1 q0.5 q0.9 pit"
@@ -67,7 +69,9 @@ def write_file(path, rng, nt, nl, ns, prob, ens, blank=None, x0=False, noobs=Fal
                 for s in range(ns):
                     o = rng.randint(-4, 12) / 2.0
                     fc = o + rng.randint(-4, 4) / 2.0
-                    row = [1325376000 + 86400 * t * 17, l * 6, 10 + s, 60 + s, 10 + s, 100 * s, o, fc]
+                    if dry and s == 1:
+                        o = 0.0                                    # a dry station: its observations never vary
+                    row = [1325376000 + 86400 * t * 17, l * 6, 10 + s, 60 + s, (10 + 170 * s) if lon360 else (10 + s), 100 * s, o, fc]
                     if prob:
                         ps = sorted(rng.random() for _ in range(3))
                         qs = sorted(fc + rng.randint(-6, 6) / 2.0 for _ in range(3))
@@ -255,6 +259,10 @@ def _explore(out, tier, seed, facts, replay, tmp):
         jobs.add(("mixed", n, None, "text", ()))
         jobs.add(("mixed", n, None, "plot", ()))
         jobs.add(("x0noobs", n, None, "plot" if (n in os_ and n not in ms) else "text", ()))
+        for ty_ in ("map", "maprank", "mapimpact"):
+            jobs.add(("lon360", n, None, ty_, ()))
+        for ax_ in ("location", "time", None):
+            jobs.add(("dry", n, ax_, "plot", ()))
     jobs = sorted(jobs, key=lambda j: (j[0], j[1], j[2] or "", j[3], j[4], j[5:]))
     rng.shuffle(jobs)
     counts = {"ok": 0, "exit": 0, "exception": 0, "silent-exit": 0}
